@@ -7,6 +7,7 @@ import ErgoProofs.Lemmas.StorageThm
 import ErgoProofs.Lemmas.CodecInst
 import ErgoProofs.Lemmas.ProcBytesThm
 import ErgoProofs.Lemmas.FilesThm
+import ErgoProofs.Lemmas.FilesProc
 namespace Ergo
 open Storage
 
@@ -109,5 +110,18 @@ theorem C03_append_killed_between_calls (classify : Bytes → LineClass) (encode
     let g := (Files.run { dir := { log := some f, tmp := t }, fds } ((Files.appendProgram classify f (linesOf encode evs)).take k)).dir.log
     g = some f ∨ g = some (repairTail classify f) ∨ g = some (appendFile classify encode f evs) :=
   Files.appendProgram_killed classify encode f t fds evs k
+
+/-- the two write steps of the byte-level process model are what ergo's system calls produce inside the lock section: the rewrite (temporary file,
+    `O_TRUNC`, any chunking, rename) puts exactly the `replace` step's file under the log's name and nothing before its rename — whatever an earlier
+    killed rewrite left behind; the append (`O_APPEND`, tail repair, one write) puts exactly the `append` step's file there.  So
+    `C03_store_loads_under_every_schedule_and_kill` speaks about kills between *system calls*, not only between model steps -/
+theorem C03_model_write_steps_are_the_system_calls (s : ProcB.BSys) (evs : List Event) (hc : s.cur < s.files.length)
+    (chunks : List Bytes) (hch : chunks.flatten = replaceFile (Codec.encodeEvent s.ets) evs) (stale : Option Bytes) (fds : Files.Fds) :
+    ((Files.run { dir := { log := some s.file, tmp := stale }, fds } (Files.rewrite true chunks)).dir.log = some (ProcB.writeBytes s (.replace evs)).file ∧
+     ∀ k, k < (Files.rewrite true chunks).length →
+       (Files.run { dir := { log := some s.file, tmp := stale }, fds } ((Files.rewrite true chunks).take k)).dir.log = some s.file) ∧
+    (Files.run { dir := { log := some s.file, tmp := stale }, fds }
+        (Files.appendProgram Codec.classifyLine s.file (linesOf (Codec.encodeEvent s.ets) evs))).dir.log = some (ProcB.writeBytes s (.append evs)).file :=
+  ⟨ProcB.rewrite_is_the_replace_step s evs chunks hch stale fds, ProcB.append_is_the_append_step s evs hc stale fds⟩
 
 end Ergo
